@@ -22,7 +22,7 @@ func init() { registry["C18"] = runC18 }
 func runC18(c *sim.Ctx, t *testing.T) {
 	sim.Install(c)
 	defer sim.Uninstall()
-	cfg := genCfg{native: true, stubs: true, failOps: true, nullRet: true, permanents: true, guards: true, guardEmits: true, loops: true, maxNodes: 5, inPlace: true}
+	cfg := genCfg{native: true, stubs: true, failOps: true, nullRet: true, permanents: true, guards: true, guardEmits: true, loops: true, maxNodes: 5, inPlace: true, errorNode: true}
 	gs := genSpec(c, cfg)
 	spec, err := compile(gs)
 	if err != nil {
@@ -55,6 +55,18 @@ func runC18(c *sim.Ctx, t *testing.T) {
 		start := genState(c, gs, cfg)
 		if start.Bs == nil {
 			start.Bs = map[string]interface{}{}
+		}
+		if c.Chance(1, 6, "manypermanents") {
+			// a machine that has collected many permanent bindings over its life
+			for q := 0; q < 8+c.Intn(5, "nperm"); q++ {
+				start.Bs[fmt.Sprintf("cfg%d!", q)] = float64(q)
+			}
+		}
+		if c.Chance(1, 6, "wasaterror") {
+			// ... or one that has been to the error node before and still carries its diagnostics
+			start.Bs["lastBindings"] = map[string]interface{}{"n": 1.0}
+			start.Bs["lastNode"] = "n0"
+			start.Bs["error"] = "earlier trouble"
 		}
 		if k == 0 && nmach > 1 {
 			delete(start.Bs, "k!")
